@@ -292,6 +292,58 @@ func checkC14(P *Program, r *Result, tier string) {
 	}
 	r.Extra["stores_classified"] = nStores
 
+	// ---------- POOL-NEW: what a pool makes on demand is a new object each time ----------
+	nNew := 0
+	for fn := range P.AllFuncs {
+		if !inRepo(fn) || fn.Blocks == nil || strings.Contains(fnPkgPath(fn), "/internal/testutils") {
+			continue
+		}
+		for _, b := range fn.Blocks {
+			for _, in := range b.Instrs {
+				st, ok := in.(*ssa.Store)
+				if !ok {
+					continue
+				}
+				fad, ok := st.Addr.(*ssa.FieldAddr)
+				if !ok || !isSyncPool(deref(fad.X.Type())) {
+					continue
+				}
+				if ps, isS := deref(fad.X.Type()).Underlying().(*types.Struct); !isS || ps.Field(fad.Field).Name() != "New" {
+					continue
+				}
+				var mk *ssa.Function
+				switch v := st.Val.(type) {
+				case *ssa.Function:
+					mk = v
+				case *ssa.MakeClosure:
+					mk, _ = v.Fn.(*ssa.Function)
+				}
+				nNew++
+				okNew, detail := mk != nil && mk.Blocks != nil, "the New function of the pool is not a function literal the rule can read"
+				if okNew {
+					detail = ""
+					for _, ret := range returnsOf(mk) {
+						v := ret.Results[0]
+						if mi, isMI := v.(*ssa.MakeInterface); isMI {
+							v = mi.X
+						}
+						fresh, why := onlyFresh(rootsOf(v))
+						if al, isAl := v.(*ssa.Alloc); isAl && al.Heap && al.Parent() == mk {
+							fresh = true
+						}
+						if !fresh {
+							okNew, detail = false, "New hands out "+why+", which is the same object on every call"
+						}
+					}
+				}
+				r.add("POOL-RESET", shortName(fn), "new", "what the pool makes on demand is a freshly allocated object each time", P.pos(instrPos(st)), okNew, detail)
+			}
+		}
+	}
+	if nNew < 3 {
+		r.fatal("expected the New functions of at least 3 sync.Pool variables, found %d", nNew)
+	}
+
 	// ---------- POOL-RESET ----------
 	nPut := 0
 	for _, fn := range funcs {
